@@ -293,13 +293,28 @@ class ExternMixin:
                                                                            OPQ, OPQ, BOOL)(self.as_opq(args[0]), self.as_opq(args[1]))),
                  'h5py.File': lambda self, args, kw, node: self.ext_h5_file(args, kw, node),
                  'np.issubdtype': lambda self, args, kw, node: VB(self.ufunc('issubdtype_' + (args[1].t.name.replace('.', '_') if args[1].k == 'const' else 'x'), OPQ, BOOL)(self.as_opq(args[0]))),
+                 'np.array': lambda self, args, kw, node: self.ext_np_array(args, kw, node),
                  'np.zeros': lambda self, args, kw, node: self.ext_np_zeros(args, kw, node),
                  'np.dtype': lambda self, args, kw, node: self.ext_np_dtype(args, kw, node)}
+
+    def ext_np_array(self, args, kw, node):
+        """X-NP9: np.array(v) of a nested sequence raises ValueError exactly when v is ragged (numpy >= 1.24) - unless an object dtype is
+        asked for, which accepts anything (the ragged parts become python objects)"""
+        v = self.as_opq(args[0])
+        as_object = 'dtype' in kw and kw['dtype'].k in ('cls', 'func', 'const') and 'object' in str(getattr(kw['dtype'].t, 'builtin', kw['dtype'].t))
+        if not as_object and not self.in_spec:
+            if self.branch(self.ufunc('np_ragged', OPQ, BOOL)(v)):
+                raise PyRaise('ValueError')
+        return SV('opq', self.ufunc('np_array_of' + ('_object' if as_object else ''), OPQ, OPQ)(v), 'ndarray')
 
     def opq_call(self, recv, name, args, kw, node):
         tag = recv.x
         if tag == 'float' and name == 'is_integer' and z3.is_app(recv.t) and recv.t.decl().name() == 'of_int':
             return VB(True)        # X-FLOAT: float(n) of an integer n (exactly representable or not) is integral
+        if tag == 'shape' and name == '__getitem__' and args and args[0].k == 'slice':
+            # a part of a shape tuple: some tuple of sizes the model does not enumerate (iterating it gives the representative shapes of
+            # unknown state: nothing, or one unknown element)
+            return SV('opq', self.ufunc('shape_slice', OPQ, OPQ, OPQ)(recv.t, self.opq_arg(args[0])), 'unknown')
         if name == 'byteswap' and (args or kw):
             # X-NP7: byteswap() copies; byteswap(True) / byteswap(inplace=True) swaps the caller's buffer in place
             flag = args[0] if args else kw.get('inplace', VB(False))
